@@ -506,7 +506,7 @@ class C13(EHistCheck):
     quick_depth = 4
     thorough_depth = 7
     chunksize = 16
-    quick_cap_s = 45
+    quick_cap_s = 300
     thorough_cap_s = 40 * 60
     rule = ("breadth-first search over operation histories on five container templates (int lists with an alias and an independent list; "
             "string lists; lists of optionals; nested lists with an aliased inner list; maps with an alias and an independent map); alphabet: "
